@@ -32,7 +32,10 @@
    * at the root (do): a response-base field under EnableThriftBase with a BaseResp in the context is skipped as a STRUCT and
      produces no member ([t2j_walk_root]; what FastRead stores into the context is compared by check 301 only).
 
-   NOT modelled: ConvertException, EnableHttpMapping, descriptors built with SetOptionalBitmap, IDL default values,
+   * ConvertException at the root ([walk_fields_x], [t2j_walk_rootx]): the exception field's JSON (plus what handleUnsets
+     appends) is the text of the returned error.
+
+   NOT modelled: EnableHttpMapping, descriptors built with SetOptionalBitmap, IDL default values,
    the pooled / caller-supplied output buffer (DoInto).  Option bits as in T2J.v / T2JUnset.v. *)
 From Coq Require Import ZArith List Bool.
 From DG Require Import ProtoWireRef ThriftWire Json Num Base64 T2J T2JUnset.
@@ -78,6 +81,9 @@ Definition bm_clear (id : Z) (bm : list Z) : list Z := filter (fun i => negb (i 
 Definition bm_isset (bm : list Z) (id : Z) : bool := existsb (fun i => i =? id) bm.
 Definition bm_missing (fs : list (fmeta * tdesc)) (bm : list Z) : bool :=
   existsb (fun f => (f_req (fst f) =? 1) && bm_isset bm (f_id (fst f))) fs.
+
+(* the result of do: a JSON text, or (ConvertException) the JSON of an exception field returned as the error *)
+Inductive wres := WText (t : list Z) | WExc (t : list Z).
 
 Section Walk.
   Variable fd : Z -> list Z.     (* the lexeme written for a finite double *)
@@ -176,26 +182,28 @@ Section Walk.
     | DList _ _ => [91; 93]
     end.
 
-  (* handleUnsets at STOP: fs in ascending id; returns the text up to and including the closing brace *)
-  Fixpoint walk_unsets (fs : list (fmeta * tdesc)) (bm : list Z) (comma : bool) : option (list Z) :=
+  (* handleUnsets: fs in ascending id; returns the text of the written members followed by [close]
+     ([125] at STOP of a struct; nothing after a ConvertException field, where no closing brace is written) *)
+  Fixpoint walk_unsets_c (close : list Z) (fs : list (fmeta * tdesc)) (bm : list Z) (comma : bool) : option (list Z) :=
     match fs with
-    | [] => Some [125]
+    | [] => Some close
     | f :: r =>
-      if negb (bm_isset bm (f_id (fst f))) then walk_unsets r bm comma
+      if negb (bm_isset bm (f_id (fst f))) then walk_unsets_c close r bm comma
       else if f_req (fst f) =? 1 then
         (if o_write_required o
-         then match walk_unsets r bm true with
+         then match walk_unsets_c close r bm true with
               | Some tl => Some (sep comma ++ quote_ref (f_key (fst f)) ++ 58 :: zero_text (snd f) ++ tl)
               | None => None
               end
          else None)
       else if (f_req (fst f) =? 0) && o_write_default o then
-        match walk_unsets r bm true with
+        match walk_unsets_c close r bm true with
         | Some tl => Some (sep comma ++ quote_ref (f_key (fst f)) ++ 58 :: zero_text (snd f) ++ tl)
         | None => None
         end
-      else walk_unsets r bm comma
+      else walk_unsets_c close r bm comma
     end.
+  Definition walk_unsets := walk_unsets_c [125].
 
   Section Loops.
     Variable rec : tdesc -> list Z -> option (list Z * list Z).   (* doRecurse one nesting level down *)
@@ -279,6 +287,60 @@ Section Walk.
       end.
   End Loops.
 
+  (* the root loop of do under ConvertException: a known field with a non-zero id is a thrift exception — the output is reset
+     to the field's value alone, the loop breaks (the fields after it are not read: their bits stay set), handleUnsets appends
+     what it writes (no closing brace), and the text is returned AS THE ERROR.  Without such a field: the plain loop. *)
+  Section LoopsX.
+    Variable rec : tdesc -> list Z -> option (list Z * list Z).
+    Variable bx : fmeta -> bool.
+
+    Fixpoint walk_fields_x (fuel : nat) (fs : list (fmeta * tdesc)) (comma : bool) (bm : list Z) (bs : list Z) : option wres :=
+      match fuel with
+      | O => None
+      | S f =>
+        match bs with
+        | [] => None
+        | t :: r =>
+          if negb (valid_ttype t) then None
+          else if t =? 0 then match walk_unsets (sort_flds fs) bm comma with Some tl => Some (WText tl) | None => None end
+          else
+            match rd_int 2 r with
+            | None => None
+            | Some (id, r2) =>
+              match find_field fs id with
+              | None =>
+                if o_disallow_unknown o then None
+                else match skip_go t r2 with
+                     | None => None
+                     | Some r3 => walk_fields_x f fs comma bm r3
+                     end
+              | Some fl =>
+                if bx (fst fl) then
+                  match skip_go T_STRUCT r2 with
+                  | None => None
+                  | Some r3 => walk_fields_x f fs comma (bm_clear id bm) r3
+                  end
+                else
+                match (if o_value_mapping o && f_jsconv (fst fl) then walk_vm (snd fl) r2 else rec (snd fl) r2) with
+                | None => None
+                | Some (txt, r3) =>
+                  if negb (id =? 0) then
+                    match walk_unsets_c [] (sort_flds fs) (bm_clear id bm) true with
+                    | Some tl => Some (WExc (txt ++ tl))
+                    | None => None
+                    end
+                  else
+                    match walk_fields_x f fs true (bm_clear id bm) r3 with
+                    | Some (WText tl) => Some (WText (sep comma ++ quote_ref (f_key (fst fl)) ++ 58 :: txt ++ tl))
+                    | other => other
+                    end
+                end
+              end
+            end
+        end
+      end.
+  End LoopsX.
+
   (* doRecurse; n bounds the nesting of containers (scalars and strings need none) *)
   Fixpoint t2j_walk_gen (n : nat) (d : tdesc) (bs : list Z) {struct n} : option (list Z * list Z) :=
     match d with
@@ -346,6 +408,19 @@ Definition t2j_walk_root (fd : Z -> list Z) (o : Z) (n : nat) (d : tdesc) (bs : 
     | None => None
     end
   | _, _ => t2j_walk_gen fd o n d bs
+  end.
+
+(* do with every modelled option, ConvertException included (what follows the value is not returned: do has no cursor) *)
+Definition t2j_walk_rootx (fd : Z -> list Z) (o : Z) (n : nat) (d : tdesc) (bs : list Z) : option wres :=
+  match d, n with
+  | DStruct fs, S n' =>
+    if o_convert_exception o then
+      match walk_fields_x fd o (t2j_walk_gen fd o n') (root_bx o) (S (length bs)) fs false (bm_init fs) bs with
+      | Some (WText t) => Some (WText (123 :: t))
+      | other => other
+      end
+    else match t2j_walk_root fd o n d bs with Some (t, _) => Some (WText t) | None => None end
+  | _, _ => match t2j_walk_root fd o n d bs with Some (t, _) => Some (WText t) | None => None end
   end.
 
 (* the walk with the spec's double lexeme (the exact decimal of the bits) *)
